@@ -14,7 +14,7 @@
 
    [flags]: each flag set to [true] re-introduces one defect that was found with this check.  [repaired] (all false)
    is what /repo HEAD does for everything that has been fixed there, with the open findings repaired; [head] is /repo
-   HEAD exactly: [repaired] plus the findings that are still open (f_stale, f_lagdel, f_race).  The other flags are kept only for the historical
+   HEAD exactly: [repaired] plus the findings that are still open (f_stale, f_lagdel).  The other flags are kept only for the historical
    _refuted witnesses in Properties.v; the correspondence check runs [repaired] and [head] only. *)
 From OV Require Import Common.Base.
 
@@ -30,14 +30,14 @@ Record flags := mkflags {
   f_lagdel : bool;  (* OPEN (bulk-sync-lagging-standby-not-converging): a bulk sync to a standby that has state and is
                        behind replays the window / stores the snapshot on top of what the standby has: a session
                        whose DELETE it missed stays, an address that changed hands may not be re-reserved *)
-  f_race : bool     (* OPEN (sender-seq-push-not-atomic): HandleEvent assigns the sequence number, pushes to the
-                       backlog and enqueues as separate steps of concurrently running handlers *)
+  f_race : bool     (* fixed in 9165119: HandleEvent assigned the sequence number, pushed to the backlog and
+                       enqueued as separate steps of concurrently running handlers *)
 }.
 Definition repaired : flags := mkflags false false false false false false false false.
 (* /repo before the C11 fixes (bb5ec1b, 88d6de6, 43d3a11, cd04fe0) *)
 Definition defective : flags := mkflags true true true true true true true true.
-(* /repo HEAD: everything fixed except the three findings marked OPEN above *)
-Definition head : flags := mkflags false true false false false false true true.
+(* /repo HEAD: everything fixed except the two findings marked OPEN above *)
+Definition head : flags := mkflags false true false false false false true false.
 
 (* ---------- association lists ---------- *)
 Section Assoc.
@@ -656,24 +656,28 @@ Inductive delivery_latest (reqs : list req) : nat -> list req -> nat -> Prop :=
     (forall j q', (k < j < m)%nat -> nth_error reqs j = Some q' -> cp_key (q_cp q') <> cp_key (q_cp q)) ->
     delivery_latest reqs m d m' -> delivery_latest reqs m (q :: d) m'.
 
-(* ---------- SyncSender.HandleEvent as the steps it consists of, run by concurrent handlers ----------
+(* ---------- SyncSender.HandleEvent as the steps it consists of, run by concurrent handlers, and the sender's role ----------
    The event bus starts every handler call in its own goroutine (pkg/events/local/bus.go: go h(req.event)).
-   /repo HEAD (f_race): (1) seqCounter.Add(1); (2) sessionToCheckpoint, backlog.Push; (3) sendCh <- req — a handler can be
-   preempted after (1).  Repaired (fixes/C11_sender_atomic.patch): the checkpoint is built first, then number, push and
-   enqueue happen under one mutex.  [SStart] runs a handler up to the point where it can be preempted, [SFinish]
-   lets it run to completion. *)
+   /repo HEAD (9165119): the checkpoint is built first, then number, push and enqueue happen under one mutex.  Before
+   that (f_race): (1) seqCounter.Add(1); (2) sessionToCheckpoint, backlog.Push; (3) sendCh <- req — a handler could be
+   preempted after (1).  [SStart] runs a handler up to the point where it can be preempted, [SFinish] lets it run to
+   completion.  [SSetActive] is SyncSender.SetActive (Manager.driveSync on every role transition): it only sets the
+   flag that HandleEvent tests first; counters and backlog rings live as long as the process. *)
 Record sstate := mkss {
   ss_seq : N; ss_ring : ring; ss_chan : list req;
-  ss_pend : list (N * (option N * (session * bool))) }.
-Inductive sop := SStart (i : N) (s : session) (rel : bool) | SFinish (i : N).
-Definition ss_init (cap : Z) : sstate := mkss 0 (new_ring cap) [] [].
+  ss_pend : list (N * (option N * (session * bool)));
+  ss_active : bool }.
+Inductive sop := SStart (i : N) (s : session) (rel : bool) | SFinish (i : N) | SSetActive (b : bool).
+Definition ss_init (cap : Z) : sstate := mkss 0 (new_ring cap) [] [] true.
 Definition ss_step (fl : flags) (g : N) (st : sstate) (o : sop) : sstate :=
   match o with
+  | SSetActive b => mkss (ss_seq st) (ss_ring st) (ss_chan st) (ss_pend st) b
   | SStart i s rel =>
+      if negb (ss_active st) then st else         (* if !s.active.Load() { return } *)
       if f_race fl
       then let sq := n64z (ss_seq st + 1) in
-           mkss sq (ss_ring st) (ss_chan st) (aset N.eqb i (Some sq, (s, rel)) (ss_pend st))
-      else mkss (ss_seq st) (ss_ring st) (ss_chan st) (aset N.eqb i (None, (s, rel)) (ss_pend st))
+           mkss sq (ss_ring st) (ss_chan st) (aset N.eqb i (Some sq, (s, rel)) (ss_pend st)) (ss_active st)
+      else mkss (ss_seq st) (ss_ring st) (ss_chan st) (aset N.eqb i (None, (s, rel)) (ss_pend st)) (ss_active st)
   | SFinish i =>
       match aget N.eqb i (ss_pend st) with
       | None => st
@@ -681,7 +685,7 @@ Definition ss_step (fl : flags) (g : N) (st : sstate) (o : sop) : sstate :=
           let sq := match osq with Some x => x | None => n64z (ss_seq st + 1) end in
           let q := mkreq g sq (if rel then ADelete else AUpdate) (s2c s) in
           mkss (match osq with Some _ => ss_seq st | None => sq end) (push (ss_ring st) q) (ss_chan st ++ [q])
-               (adel N.eqb i (ss_pend st))
+               (adel N.eqb i (ss_pend st)) (ss_active st)
       end
   end.
 Definition ss_run (fl : flags) (g : N) (cap : Z) (ops : list sop) : sstate :=
